@@ -123,7 +123,7 @@ Local Open Scope Z_scope.
 Ltac Zify.zify_post_hook ::= Z.div_mod_to_equations.
 
 Definition bound_formula (n : Z) : Z :=
-  Z.max (128 + n * 110 / 100) (128 + n + (n / 31744 + 1) * 5).
+  128 + n + n / 8 + (n / 31744 + 1) * 5.
 
 Lemma deflate_bound_formula n :
   0 <= n < 2 ^ 56 -> mz_deflateBound tt n = (bound_formula n, true).
@@ -134,17 +134,22 @@ Proof.
     by (intros; unfold uwrap; apply Z.mod_small; assumption).
   change (31 * 1024) with 31744.
   rewrite (Hu 31744) by lia.
-  rewrite (Hu (n * 110)) by lia.
-  rewrite (Z.quot_div_nonneg (n * 110) 100) by lia.
+  rewrite (Z.quot_div_nonneg n 8) by lia.
   rewrite (Z.quot_div_nonneg n 31744) by lia.
-  rewrite (Hu (128 + n * 110 / 100)) by lia.
-  rewrite (Hu (128 + n)) by lia.
-  rewrite (Hu (n / 31744 + 1)) by lia.
-  rewrite (Hu ((n / 31744 + 1) * 5)) by lia.
-  rewrite (Hu (128 + n + (n / 31744 + 1) * 5)) by lia.
+  repeat match goal with |- context [uwrap 64 ?x] => rewrite (Hu x) by lia end.
   f_equal.
   unfold inrange. repeat (apply andb_true_intro; split); try (apply Z.leb_le; lia); try reflexivity.
 Qed.
+
+(* the bound dominates both terms of the formula miniz advertises, max(128+1.1n, 128+n+5(n/31744+1)),
+   and allows 9 bits for every input byte on top of 5 bytes for every 31 KiB block *)
+Lemma bound_dominates_miniz n :
+  0 <= n -> Z.max (128 + n * 110 / 100) (128 + n + (n / 31744 + 1) * 5) <= bound_formula n.
+Proof. intros H. unfold bound_formula. lia. Qed.
+
+Lemma bound_nine_bits n :
+  0 <= n -> (9 * n + 7) / 8 + 5 * (n / 31744 + 1) + 127 <= bound_formula n.
+Proof. intros H. unfold bound_formula. lia. Qed.
 
 Lemma bound_monotone n m : 0 <= n <= m -> bound_formula n <= bound_formula m.
 Proof. intros H. unfold bound_formula. lia. Qed.
